@@ -36,3 +36,34 @@ else:
     s = s[:start] + '<!-- SEED_TABLE_START -->\n' + table + '\n' + s[end:]
 open(p, 'w').write(s)
 print(table)
+
+# ---- behaviour-preserving refactorings ------------------------------------------------------------------------------
+rroot = os.path.join(VERIF, 'seeded', 'refactor')
+rrows = []
+for name in sorted(os.listdir(rroot)):
+    mp = os.path.join(rroot, name, 'meta.json')
+    if not os.path.exists(mp):
+        continue
+    m = json.load(open(mp))
+    what = ''
+    np_ = os.path.join(rroot, name, 'notes.md')
+    if os.path.exists(np_):
+        for l in open(np_).read().splitlines():
+            l = l.strip(' #*-`')
+            if len(l) > 25:
+                what = l
+                break
+    fa, rf = m.get('false_alarms', []), m.get('refused_by', [])
+    verdict = 'silent (all 20 checks exit 0)' if not fa and not rf else \
+        ('**FALSE ALARM** ' + ','.join(fa) if fa else 'cannot tell (exit 2): ' + ','.join(rf))
+    rrows.append('| %s | %s | %s | %s |' % (name, 'yes' if m.get('behaviour_check_same') else '?', what[:140].replace('|', '/'), verdict))
+rtable = ('| refactoring | agent\'s differential script prints the same on both trees | what it does | all 20 checks on the patched tree |\n'
+          '|---|---|---|---|\n' + '\n'.join(rrows))
+rtable += '\n\n%d refactorings: %d silent, %d refused (exit 2), %d false alarms.\n' % (
+    len(rrows), sum('silent' in r for r in rrows), sum('cannot tell' in r for r in rrows), sum('FALSE ALARM' in r for r in rrows))
+s = open(p).read()
+if '<!-- REFACTOR_TABLE_START -->' in s:
+    a, b = s.index('<!-- REFACTOR_TABLE_START -->'), s.index('<!-- REFACTOR_TABLE_END -->')
+    s = s[:a] + '<!-- REFACTOR_TABLE_START -->\n' + rtable + '\n' + s[b:]
+    open(p, 'w').write(s)
+print(rtable)
